@@ -34,10 +34,17 @@ def has_dict(d):
     return any(has_dict(e) for e in d[1:])
 
 
-def expect_td(d, k):
-    """the property's own reading: a value becomes a TypedDict iff it is an exact dict, non-empty, all-str keys, <= k keys"""
+def may_be_td(d, k):
+    """the property's own reading: ONLY an exact dict that is non-empty, has all-str keys and at most k of them becomes a TypedDict"""
     return (not isinstance(d, str)) and d[0] == "dict" and len(d) > 1 and len(d) - 1 <= k and all(
         (not isinstance(kv[0], str)) and kv[0][0] == "str" for kv in d[1:])
+
+
+def expect_td(d, k):
+    """what the code does (and the model's `getType`): such a dict does become one when its keys are identifiers, the only
+    strings the class syntax of a generated TypedDict can express"""
+    import keyword
+    return may_be_td(d, k) and all(str(kv[0][1]).isidentifier() and not keyword.iskeyword(str(kv[0][1])) for kv in d[1:])
 
 
 def stub_class_sizes(stubs):
@@ -79,8 +86,12 @@ def direct(eng, objs, ds, k, t=None):
         bad.append("zero: TypedDict present at limit 0 in %r" % (t,))
     for o, d in zip(objs, ds):
         st = eng.get_type(o, k)
+        if is_anon_td(st) and not may_be_td(d, k):
+            bad.append("which: get_type(%s,%d) is a TypedDict" % (sexp.dumps(d), k))
         if is_anon_td(st) != expect_td(d, k):
-            bad.append("which: get_type(%s,%d) TypedDict=%s expected %s" % (sexp.dumps(d), k, is_anon_td(st), expect_td(d, k)))
+            eng.chk.rel("corr.C06.which", False, {"k": k, "value": sexp.dumps(d), "impl": is_anon_td(st), "expected": expect_td(d, k)})
+        else:
+            eng.chk.rel("corr.C06.which", True, {})
     # store round trip keeps the bound
     try:
         t2 = type_from_json(type_to_json(t))
